@@ -90,7 +90,15 @@ def check(prog: Program, tier: str) -> Result:
             res.ok("R5.2", "sa/fixtures/c05/pyrefact/state.py", "fixture", "positive control", "fixture violations of R5.1 and R5.2 are reported", trivial=True)
     # ---------------- R5.3 interpreter-global state
     _r5_3(prog, res)
-    res.floors.update({"R5.1": 150, "R5.3": 2})
+    # ---------------- R5.7 "identical to the result in a fresh process": the order in which same-position rewrites are applied and
+    # sets are walked must not come from hash seeds or memory addresses - decided by the C06 check (R6.2, R6.4, R6.5), adopted
+    from . import c06 as _c06
+    _tmp = Result("C06", "", "")
+    _c06._r6_2(prog, _tmp)
+    _c06._r6_4(prog, _tmp)
+    _c06._r6_5(prog, _tmp)
+    res.adopt(_tmp, {"R6.2", "R6.4", "R6.5"}, "R5.7", "a fresh process has another hash seed and other addresses: an order taken from them makes the same call answer differently there")
+    res.floors.update({"R5.1": 150, "R5.3": 2, "R5.7": 10})
     res.analysed.update({"summary_rounds": own.rounds, "sink_evaluations": own.sinks_seen,
                          "cached_origins": sorted(own.cached_origins.values()),
                          "functions_mutating_a_parameter": sorted(f"{k[0]}.{k[1]}({', '.join(sorted(s.mutates))})" for k, s in own.summaries.items() if s.mutates)})
@@ -302,6 +310,26 @@ def _r5_5(prog: Program, res: Result) -> None:
                     f"{what} at {g.loc(node)}{via}: the memoised result outlives the state it was computed from, a later call with the same arguments "
                     "returns the earlier answer and the output of formatting depends on what the process did before")
     res.analysed["memoised_functions"] = n
+
+
+def adopt_memo_rule(prog: Program, res: Result, as_rule: str, anchors, why: str) -> int:
+    """R5.5 (memoised functions do not read the environment) restricted to the memoised functions reachable from `anchors`
+    (function keys), adopted under another property's rule."""
+    reach, todo = set(), [k for k in anchors if k in prog.funcs]
+    while todo:
+        k = todo.pop()
+        if k in reach:
+            continue
+        reach.add(k)
+        f = prog.funcs[k]
+        for c in prog.calls_in(f):
+            r = prog.resolve_call(c.func, f.mod, f)
+            if r and r[0] == "fn":
+                todo.append(r[1].key)
+    fqs = {prog.funcs[k].fq for k in reach}
+    tmp = Result("C05", "", "")
+    _r5_5(prog, tmp)
+    return res.adopt(tmp, {"R5.5"}, as_rule, why, keep=lambda o: o.func in fqs)
 
 
 # ---------------------------------------------------------------------------------------------- self-test
